@@ -227,6 +227,17 @@ Theorem C16_update_keys_restores_sync :
 Proof. exact update_restores_sync. Qed.
 Print Assumptions C16_update_keys_restores_sync.
 
+(** nested keyed collections (keyed inside a keyed item): when update_keys() of the outer
+    collection removes a key, the FieldKeys of every keyed field at or below the removed item's
+    path are forgotten (repair of F-C16-l), so the item that later takes over the recycled path
+    segment is NOT in the known class: its nested collections start in sync *)
+Theorem C16_recycled_slot_starts_fresh :
+  forall c1 c2 p latest m f seg q v,
+    km_find p m = Some f -> In seg (fk_removed f latest) -> starts_with (p ++ [seg]) q = true ->
+    NoDup (keys_of v) -> entry_synced (km_update c1 c2 p latest m) q v.
+Proof. exact recycled_slot_starts_fresh. Qed.
+Print Assumptions C16_recycled_slot_starts_fresh.
+
 (** ---- open finding F-C16-g: order between two readers that both sit strictly below the
     written field ---- *)
 
